@@ -429,7 +429,11 @@ def check_C03(prop, tier, only):
     jobs = (pool_suite(tier, c, extra=x, fams=("member", "traits", "compose")) + coll_suite(tier, c, extra=x, fams=("member", "compose"))
             + stack_suite(tier, c, extra=x, fams=("member", "compose")) + iter_suite(tier, c, extra="--faults 0")
             + arena_suite(tier, c[:1], extra="--faults 1") + static_suite(tier, c))
+    import grids
     ej = [J("h_lowlevel", cfg, "--mode fail", name=f"lowlevel-fail[{cfg}]") for cfg in c]
+    # single-step request sweep over collections (also part of C02): a request inside the documented limits must return a
+    # pointer or throw something derived from std::bad_alloc - never null, never crash (found D17/D18)
+    ej += [j for j in grids.jobs_sweep(tier) if "/coll_" in j["name"] or "/pool_" in j["name"]]
     return run_explore_check(prop, tier, jobs, only, enum_jobs=ej, note=NOTE_BFS +
                              "low-level allocators: malloc / operator new / mmap / mprotect made to fail during every request shape (must throw the out_of_memory family "
                              "after the handler, never null); alphabet includes try_ variants, requests that exhaust fixed sources, an oversize request, and 'fail the next upstream call' "
